@@ -76,12 +76,12 @@ def run(ctx):
         for rep in "ah":
             small.append(gen_dag.Dag([("a", b, rep)], 0))
         small.append(gen_dag.Dag([("a", b, "a"), ("a", b, "h"), ("p", 0, 1)], 2))
-    for _ in range(ctx.scale(400, 20000)):
+    for _ in range(ctx.scale(400, 6000)):
         d = gen_dag.gen_dag(r, n=r.choice([1, 2, 3, 5, 8, 13, 20]), max_expanded=60)
         (small if d.hashed_bytes() <= 1500 else big).append(d)
-    for _ in range(ctx.scale(1500, 60000)):
+    for _ in range(ctx.scale(1500, 15000)):
         big.append(gen_dag.gen_dag(r, max_expanded=20000))
-    for _ in range(ctx.scale(300, 10000)):
+    for _ in range(ctx.scale(300, 3000)):
         big.append(gen_dag.from_tree(gen.gen_tree(r, share=r.choice([0.0, 0.3]))))
     for n in ctx.scale([300, 3000], [300, 3000, 30000]):
         big.append(gen_dag.from_tree(gen.deep_list(r, n, right=True)))
@@ -116,7 +116,7 @@ def run(ctx):
         want = "%d,%d" % (native_cost(d, 2), native_cost(d, 6))
         if f["cost"] != want:
             ctx.notes.append("cost of tree_hash_costed %s differs from the closed form %s on %s" % (f["cost"], want, c[:80]))
-        for cls in (Obj, SlotObj):
+        for cls in ((Obj, SlotObj) if d.expanded() <= 5000 else (Obj,)):   # without attribute caching the walk is the expanded tree
             hasher = th.Treehasher(th.CHIA_TREE_HASH_ATOM_PREFIX, th.CHIA_TREE_HASH_PAIR_PREFIX)
             got = hasher.sha256_treehash(py_objects(d, cls)).hex()
             hits += hasher.cache_hits
